@@ -5,16 +5,6 @@ cd /verif || exit 2
 PAT=${1:-C}; PAR=${2:-3}
 OUT=seeded/RESULTS.md
 TMPD=/tmp/seed-results-$$; mkdir -p $TMPD
-one() {
-  d=$1; s=$(basename $d); P=${s%%-*}
-  LOG=$(tools/mutant_test.sh $P $d/patch.diff 2>&1)
-  RC=$(echo "$LOG" | sed -n 's/^exit=//p')
-  NV=$(echo "$LOG" | sed -n 's/^violations: //p' | head -1)
-  MSG=$(echo "$LOG" | grep 'what:' | head -1 | cut -c1-160 | tr '|' '/')
-  echo "| $s | $P | $RC | $NV | $MSG |" > $2/$s.row
-  echo "$s exit=$RC violations=$NV"
-}
-export -f one 2>/dev/null
 ls -d seeded/${PAT}* | while read d; do [ -f "$d/patch.diff" ] && echo $d; done > $TMPD/list
 cat $TMPD/list | xargs -P $PAR -I{} sh -c '
   d={}; s=$(basename $d); P=${s%%-*}
